@@ -44,9 +44,12 @@ CONSTANTS Variants,        \* subset of {"plain","pk","uniq","idx","nn","all","a
 N == -99
 Span == 10000              \* ids of different batches never meet: every batch gets its own block of Span ids
 
-VARIABLES tv, segs, extra, txn, base, ai, nops, hist
-vars == <<tv, segs, extra, txn, base, ai, nops, hist>>
-view == <<tv, segs, extra, txn, base, ai, nops>>
+VARIABLES tv, segs, extra, txn, base, ai, nops, hist,
+          used      \* ghost: the bulk APIs that produced the table so far. Part of the VIEW on purpose: the same rows loaded
+                    \* by INSERT or by a bulk API are the same state for the user but not for the implementation, so every
+                    \* state is explored once per history class (and reached by a history that only uses those APIs)
+vars == <<tv, segs, extra, txn, base, ai, nops, hist, used>>
+view == <<tv, segs, extra, txn, base, ai, nops, used>>
 
 HasPK   == tv # "plain"
 HasUniq == tv \in {"uniq", "all"}
@@ -191,10 +194,11 @@ Obs(ss, ex, more) ==
                     ELSE {})
                    \cup (IF AutoInc THEN {} ELSE {[name |-> "fresh", row |-> <<MaxIdIn(ss, ex) + 12, N, 1>>, ok |-> TRUE]})]
 
-Init == /\ tv \in Variants /\ segs = <<>> /\ extra = {} /\ txn = <<>> /\ base = 1 /\ ai = 1 /\ nops = 0 /\ hist = <<>>
+Init == /\ tv \in Variants /\ segs = <<>> /\ extra = {} /\ txn = <<>> /\ base = 1 /\ ai = 1 /\ nops = 0 /\ hist = <<>> /\ used = {}
 
 Step(op, outs, more) ==
     /\ nops' = nops + 1
+    /\ used' = IF op.k \in {"bulk", "bulk_ai"} THEN used \cup {op.api} ELSE used
     /\ hist' = Append(hist, [op |-> op, tv |-> tv, intxn |-> txn' # <<>>,
                              outs |-> {[kind |-> o.kind, ok |-> o.ok, n |-> o.n, nerr |-> o.nerr, segs |-> o.segs, extra |-> o.extra,
                                         obs |-> Obs(o.segs, o.extra, more)] : o \in outs},
